@@ -152,7 +152,7 @@ def _render(v, cache):
         if isinstance(p, lk['ProgramUnit']):
             key = ('proc', id(p))
             if key not in cache:
-                cache[key] = (p.name, tuple(p._dummies), lk['fgen'](p.spec) if p.spec else None)  # pylint: disable=protected-access
+                cache[key] = (_proc_kind(p), p.name, tuple(p._dummies), lk['fgen'](p.spec) if p.spec else None)  # pylint: disable=protected-access
             link = cache[key]
         elif isinstance(p, lk['Node']):
             link = ('stmtfunc', str(getattr(p, 'variable', '')))
@@ -170,6 +170,28 @@ def _render(v, cache):
     if hasattr(v, 'module') and type(v).__name__ == 'ModuleType':
         return ('moduletype', getattr(v, 'name', None))
     return repr(v)
+
+
+_OWN = [frozenset(), frozenset()]
+
+
+def _set_own(*units):
+    own, contained = set(), set()
+    for u in units:
+        for x in all_scopes(u):
+            own.add(id(x))
+            for q in getattr(x, 'subroutines', ()) or ():
+                contained.add(id(q))
+    _OWN[0], _OWN[1] = frozenset(own), frozenset(contained)
+
+
+def _proc_kind(p):
+    """Relative to the unit(s) currently observed/compared: 'contained' = in the CONTAINS part of one of
+    its program units; 'sibling' = another procedure object inside it (other unit of the file,
+    interface body); 'external' = anything else (imported / enriched from definitions)."""
+    if id(p) in _OWN[1]:
+        return 'contained'
+    return 'sibling' if id(p) in _OWN[0] else 'external'
 
 
 def type_fp(t, cache=None):
@@ -195,6 +217,7 @@ def observe(unit, text=True):
         txt = None
     cache = {}
     types, foreign = [], []
+    _set_own(unit)
     for s, stack, hold in typed_symbol_occurrences(unit):
         try:
             t = s.type
@@ -251,6 +274,9 @@ def diff_types(a, b):
                         elif ka == kb == 'proc':
                             idx = next(i for i in range(len(va)) if va[i] != vb[i])
                             cls = 'dtype(procedure).' + ['', 'name', 'is_function', 'is_generic', 'procedure', 'return_type'][idx]
+                            if idx == 4:
+                                kinds = sorted({x[0] for x in (va[4], vb[4]) if isinstance(x, tuple)})
+                                cls += f'[{"/".join(kinds)}]' 
                         else:
                             cls = f'dtype {ka if isinstance(ka, str) else "?"}->{kb if isinstance(kb, str) else "?"}'
                             cls = 'dtype kind-of-type'
@@ -429,6 +455,8 @@ def explain_neq(a, b, depth=0):
     """Where two objects that should compare equal first differ: a '>'-separated chain of
     `Class.field` steps with all names and indices masked.  None if a == b."""
     lk = LK()
+    if depth == 0:
+        _set_own(a, b)
     try:
         if a == b:
             return None
@@ -472,7 +500,8 @@ def explain_neq(a, b, depth=0):
         pa, pb = a.procedure, b.procedure
         la, lb = isinstance(pa, lk['ProgramUnit']), isinstance(pb, lk['ProgramUnit'])
         if la != lb:
-            return f'{cn}.procedure:{"linked" if la else "unlinked"}-vs-{"linked" if lb else "unlinked"}'
+            kind = _proc_kind(pa if la else pb)
+            return f'{cn}.procedure[{kind}]:{"linked" if la else "unlinked"}-vs-{"linked" if lb else "unlinked"}'
         return fields(['stored_name', 'name', 'procedure', 'is_function', 'is_generic', 'return_type'],
                       [a._name, a.name, pa, a.is_function, a.is_generic, a.return_type],   # pylint: disable=protected-access
                       [b._name, b.name, pb, b.is_function, b.is_generic, b.return_type])   # pylint: disable=protected-access
